@@ -23,7 +23,7 @@ Theorem no_panic_compile : forall v o goos goarch gvt tbl requested certain,
   all_guards v o -> table_events v o goos goarch gvt tbl requested certain = [].
 Proof. intros. eapply closed_nil; eauto. apply table_events_open. Qed.
 
-Theorem no_panic_compile_task : forall v o gvt t, all_guards v o -> forall s, compile_task v gvt t <> Panic s.
+Theorem no_panic_compile_task : forall v o gvt t, all_guards v o -> forall s, compile_task v o gvt t <> Panic s.
 Proof. intros v o gvt t Hg s H. eapply all_guards_closed; [ exact Hg | ]. eapply compile_task_open; eauto. Qed.
 
 Theorem no_panic_read : forall v o fs fuel, all_guards v o -> forall s, read v o fs fuel <> RPanic s.
@@ -40,13 +40,41 @@ Proof.
 Qed.
 
 (* ---------- error codes ---------- *)
+Lemma resolve_include_codes : forall v o i c, resolve_include v o i = Err c -> In c model_codes.
+Proof.
+  intros v o i c H. unfold resolve_include, expand_literal in H.
+  destruct (is_remote_looking (i_taskfile i)).
+  - destruct (is_empty (i_dir i)); [ discriminate | ].
+    destruct (o_words o (i_dir i)) as [[ | n] | ]; try discriminate;
+      try (destruct (g_expand_literal_len v); discriminate).
+    inversion H; subst. cbn; tauto.
+  - destruct (is_empty (i_taskfile i)).
+    + destruct (is_empty (i_dir i)); [ discriminate | ].
+      destruct (o_words o (i_dir i)) as [[ | n] | ]; try discriminate;
+        try (destruct (g_expand_literal_len v); discriminate).
+      inversion H; subst. cbn; tauto.
+    + destruct (o_words o (i_taskfile i)) as [[ | n] | ].
+      * destruct (g_expand_literal_len v); [ | discriminate ].
+        destruct (is_empty (i_dir i)); [ discriminate | ].
+        destruct (o_words o (i_dir i)) as [[ | n] | ]; try discriminate;
+          try (destruct (g_expand_literal_len v); discriminate).
+        inversion H; subst. cbn; tauto.
+      * destruct (is_empty (i_dir i)); [ discriminate | ].
+        destruct (o_words o (i_dir i)) as [[ | n'] | ]; try discriminate;
+          try (destruct (g_expand_literal_len v); discriminate).
+        inversion H; subst. cbn; tauto.
+      * inversion H; subst. cbn; tauto.
+Qed.
+
 Lemma read_includes_codes : forall v o fs rec,
   (forall stack vis tfs loc c, rec stack vis tfs loc = RErr c -> In c model_codes) ->
   forall incs stack vis tfs c, read_includes v o fs rec stack vis tfs incs = RErr c -> In c model_codes.
 Proof.
   intros v o fs rec Hrec. induction incs as [ | i r IH ]; intros stack vis tfs c H; cbn in H; [ discriminate | ].
   destruct (i_vars_time i && negb (g_traverse_struct v)); [ discriminate | ].
-  destruct (new_node v o (i_taskfile i)) as [loc | | p].
+  destruct (resolve_include v o i) as [ep | c0 | p0] eqn:Eri; [ | | discriminate ].
+  2: { inversion H; subst. eapply resolve_include_codes; eauto. }
+  destruct (new_node v o ep) as [loc | | p].
   - destruct (lookup loc fs).
     + destruct (mem loc stack); [ inversion H; subst; cbn; tauto | ].
       destruct (rec stack vis tfs loc) eqn:Er; try discriminate.
@@ -148,6 +176,17 @@ Proof. intros v o name Hm Hq Hr. unfold wildcard_compile. rewrite Hq, Hr, Hm. re
 Theorem refuted_traverse : forall v, g_traverse_struct v = false -> traverse v true = Panic STraverseStruct.
 Proof. intros v H. unfold traverse. rewrite H. reflexivity. Qed.
 
+Theorem refuted_expand_literal : forall v o str, g_expand_literal_len v = false ->
+  is_empty str = false -> o_words o str = Some 0 -> expand_literal v o str = Panic SExpandLiteral.
+Proof. intros v o str Hg He Hw. unfold expand_literal. rewrite He, Hw, Hg. reflexivity. Qed.
+
+(* ExpandLiteral with the length check never panics, whatever the shell parser says about the string *)
+Theorem expand_literal_total : forall v o str, g_expand_literal_len v = true -> forall s, expand_literal v o str <> Panic s.
+Proof.
+  intros v o str Hg s H. unfold expand_literal in H. destruct (is_empty str); [ discriminate | ].
+  destruct (o_words o str) as [[ | n] | ]; try discriminate. rewrite Hg in H. discriminate.
+Qed.
+
 Theorem refuted_deepcopy_nil : forall v, g_deepcopy_nil v = false ->
   slice_deepcopy v (set_sources task0 [None]) = Panic SDeepCopyNil.
 Proof. intros v H. unfold slice_deepcopy. cbn. rewrite H. reflexivity. Qed.
@@ -161,7 +200,8 @@ Definition ex_oracles : oracles :=
   {| o_dur := fun _ => false; o_ver := fun s => String.eqb s "3";
      o_os := fun s => mem s ["linux"; "windows"]; o_arch := fun s => mem s ["amd64"];
      o_wc_raw := fun s => negb (String.eqb s "a(b"); o_wc_quoted := fun _ => true;
-     o_giturl := fun s => if String.eqb s "https://example.com/foo/bar.git" then Some ("https", "/foo/bar.git") else None |}.
+     o_giturl := fun s => if String.eqb s "https://example.com/foo/bar.git" then Some ("https", "/foo/bar.git") else None;
+     o_words := fun s => if str_prefix "#" s then Some 0 else Some 1 |}.
 
 Definition ex_env (root : ynode) : docenv :=
   {| de_goos := "linux"; de_goarch := "amd64"; de_files := [(root_name, root)];
@@ -193,6 +233,10 @@ Proof. vm_compute. reflexivity. Qed.
 Example doc_empty_matrix :
   pr_may (predict unguarded ex_oracles (ex_env (doc (one_task [(k "cmds", YSeq [YMap [(k "cmd", k "echo"); (k "for", YMap [(k "var", k "X"); (k "matrix", YMap [])])]])]))))
   = [SMatrixNilMap].
+Proof. vm_compute. reflexivity. Qed.
+Example doc_dir_comment : musts (doc (one_task [(k "dir", k "#build"); (k "cmds", YSeq [k "echo hi"])])) = [SExpandLiteral].
+Proof. vm_compute. reflexivity. Qed.
+Example doc_include_comment : musts (doc [(k "includes", YMap [(k "sub", k "#sub")])]) = [SExpandLiteral].
 Proof. vm_compute. reflexivity. Qed.
 (* a decode error on yaml's line 4 of a file that strings.Split sees as one line *)
 Example doc_snippet :
